@@ -140,6 +140,36 @@ let edge_weight (pts : string array) : q =
   done;
   qred !acc
 
+(* exact rescaling class "name@k": every ordinate of the line (operands, results, overlay dumps) is a
+   float64 that was produced from operands multiplied by 2^k; power-of-two scaling commutes exactly
+   with the engine's float arithmetic, so dividing 2^k out (a shift of the exponent field, exact
+   unless the value leaves the normal range) must give exactly what the lattice operands give *)
+exception Unscale of string
+let unscale_token (k : int) (t : string) : string =
+  if String.length t <> 16 || not (String.for_all (fun ch -> match ch with '0' .. '9' | 'a' .. 'f' -> true | _ -> false) t) then t
+  else begin
+    let bits = Int64.of_string ("0x" ^ t) in
+    let mant = Int64.logand bits 0xFFFFFFFFFFFFFL in
+    let e = Int64.to_int (Int64.logand (Int64.shift_right_logical bits 52) 0x7FFL) in
+    if e = 0 && mant = 0L then t
+    else if e = 0 || e = 0x7FF then raise (Unscale ("subnormal or non-finite ordinate " ^ t))
+    else begin
+      let e' = e - k in
+      if e' < 1 || e' > 0x7FE then raise (Unscale ("ordinate leaves the normal range " ^ t));
+      let bits' = Int64.logor (Int64.logand bits (Int64.lognot (Int64.shift_left 0x7FFL 52))) (Int64.shift_left (Int64.of_int e') 52) in
+      Printf.sprintf "%016Lx" bits'
+    end
+  end
+let unscale_field (k : int) (s : string) : string =
+  (* tokens are separated by spaces; result fields carry "name|dump|v", overlay fields "@NAME=dump" *)
+  let buf = Buffer.create (String.length s) in
+  let tok = Buffer.create 16 in
+  let flush () = if Buffer.length tok > 0 then (Buffer.add_string buf (unscale_token k (Buffer.contents tok)); Buffer.clear tok) in
+  String.iter (fun ch -> match ch with
+      | ' ' | '|' | '=' -> flush (); Buffer.add_char buf ch
+      | _ -> Buffer.add_char tok ch) s;
+  flush (); Buffer.contents buf
+
 type res = Good of string * q geomT * q geomT * bool * int   (* dump, exact value, snapped value, valid, moved *)
          | Bad of string
 
@@ -153,10 +183,25 @@ let () =
   let samples = ref 0 in
   iter_lines path (fun line ->
       let f = split_tabs line in
-      let id = f.(0) and kind = f.(1) and cls = f.(2) in
+      let id = f.(0) and kind = f.(1) in
       incr cases;
+      let scaled_cls = String.contains f.(2) '@' in
+      let cls, unscale_error =
+        if not scaled_cls then (f.(2), None)
+        else begin
+          let j = String.index f.(2) '@' in
+          let k = int_of_string (String.sub f.(2) (j + 1) (String.length f.(2) - j - 1)) in
+          count "rescaled_cases"; count (if k < 0 then "rescaled_down" else "rescaled_up");
+          let err = (try
+                       (* error messages (field "name|ERR|msg") are left alone *)
+                       Array.iteri (fun i x -> if i >= 3 && not (String.length x > 4 && (try ignore (Str.search_forward (Str.regexp_string "|ERR|") x 0); true with Not_found -> false))
+                                     then f.(i) <- unscale_field k x) f; None
+                     with Unscale m -> Some m) in
+          (String.sub f.(2) 0 j, err)
+        end in
       count ("class_" ^ kind ^ "_" ^ cls);
       let failc k name detail = fail id k name (trunc detail) in
+      (match unscale_error with Some m -> failc "SPEC" "rescaled_result_not_representable" m | None -> ());
       (try
       let parse_geom (d : string) : q geomT =
         let gn = parse_dump d in
